@@ -5,8 +5,8 @@ from harness.core import cbool, clist, cnat, copt, cq
 
 ID = "C06"
 MODEL_TARGETS = ["C06/Cases.vo"]
-PROOF_TARGETS = ["C06/Proofs.vo"]
-OBLIGATION_FILES = []
+PROOF_TARGETS = ["C06/Gen.vo", "C06/Bridge.vo", "C06/Proofs.vo", "C06/Refuted.vo"]
+OBLIGATION_FILES = ["C06/Bridge.v", "C06/Refuted.v"]
 PROPS_FILE = "C06/Props.v"
 SHARD = 120
 PER_CASE_TIMEOUT = 30
@@ -38,7 +38,14 @@ MODELLED = [
 ]
 NOT_RUNNABLE = []
 
-# name -> (coq name, family, class name, option names, extra series)
+
+
+def translate(repo):
+    from translator import metricq
+    return metricq.translate(repo)
+
+
+# name -> (coq name, class name, option names, extra series)
 METRICS = {
     "mean_absolute_error": ("MAE", "MeanAbsoluteError", (), None),
     "mean_squared_error": ("MSE", "MeanSquaredError", ("square_root",), None),
